@@ -9,12 +9,21 @@
 // except according to those terms.
 
 use crate::sinks::core::{MetricSink, SinkStats};
+#[cfg(cadence_verif)]
+use cadence_dsim::channel::{self as crossbeam_channel, Receiver, Sender, TrySendError};
+#[cfg(not(cadence_verif))]
 use crossbeam_channel::{self, Receiver, Sender, TrySendError};
 use std::fmt;
 use std::io::{self, ErrorKind};
 use std::panic::RefUnwindSafe;
+#[cfg(cadence_verif)]
+use cadence_dsim::sync::atomic::{AtomicBool, AtomicU64, Ordering};
+#[cfg(not(cadence_verif))]
 use std::sync::atomic::{AtomicBool, AtomicU64, Ordering};
 use std::sync::Arc;
+#[cfg(cadence_verif)]
+use cadence_dsim::thread;
+#[cfg(not(cadence_verif))]
 use std::thread;
 
 /// Implementation of a builder pattern for `QueuingMetricSink`.
